@@ -146,11 +146,14 @@ def run(ctx):
                                  workers=2, timeout=600)
     fut["proto"] = pool.submit(_tlc, ctx, "ZipGuard", _proto_cfg(), workers=2, timeout=600)
     sens = {}
-    for d in LOOP_DEVS:
+    # thorough: all 19 mutations of the specification; quick: 3 loop + 1 protocol mutation, rotated by the seed
+    loop_devs = LOOP_DEVS if T else [LOOP_DEVS[(ctx.seed * 3 + k) % len(LOOP_DEVS)] for k in range(3)]
+    proto_devs = PROTO_DEVS if T else [PROTO_DEVS[ctx.seed % len(PROTO_DEVS)]]
+    for d in loop_devs:
         sens[d] = pool.submit(_tlc, ctx, "ZipGuard",
                               _loop_cfg(FS_FULL, CS_FULL, 2, "LS_Quick", dev=d, invs=["Inv_LoopConforms"]),
                               workers=1, timeout=600, expect_fail=True, heap="1g")
-    for d in PROTO_DEVS:
+    for d in proto_devs:
         sens[d] = pool.submit(_tlc, ctx, "ZipGuard", _proto_cfg(d), workers=1, timeout=600,
                               expect_fail=True, heap="1g")
 
@@ -240,7 +243,7 @@ def _lattice_jobs(ctx):
     specs = []                      # (tag, spec path, cfg)
     if not T:
         specs.append(("q2", "ZipGuardGen", _gen_cfg(FS_FULL, CS_FULL, 2, "LT_Quick")))
-        specs.append(("q3", "ZipGuardGen", _gen_cfg(FS_RED, CS_RED, 3, "LT_Three")))
+        specs.append(("q3", "ZipGuardGen", _gen_cfg(FS_RED, CS_RED, 3, "LT_L3")))
     else:
         # ask TLC for the 243 limit variants, partition them into jobs through generated modules
         d0 = ctx.scratch / "lt.dump"
@@ -291,7 +294,7 @@ def _collect_lattice(ctx, futs):
         ncase = sum(len(t["ev"]) for t in traces)
         if ncase != r.distinct:
             raise MachineryError(f"lattice {tag}: {ncase} cases replayed, TLC enumerated {r.distinct}")
-        br = _pvalidate(ctx, traces, 10)
+        br = _pvalidate(ctx, traces, 10 if ctx.thorough else 4)
         ev.tlc_counts(f"ZipGuardTrace lattice {tag}: observations decided by TLC", br.distinct, br.states, br.wall_s)
         for t, tv in zip(traces, br.verdicts):
             if tv.accepted:
@@ -348,7 +351,7 @@ def _decide_real(ctx, outs):
         raise MachineryError(f"default-magnitude vectors inadequate for the running limits: sole-clause hits {sole}, "
                              f"classes {classes}")
     ctx.log(f"(ii) TLC classes of {len(cover)} forged-ZIP cases: {classes}; sole-clause hits {sole}")
-    br = _pvalidate(ctx, traces, 10)
+    br = _pvalidate(ctx, traces, 5 if ctx.thorough else 2)
     ev.tlc_counts("ZipGuardTrace real files: outcome classes decided by TLC (limb naturals)", br.distinct, br.states,
                   br.wall_s)
     covcls = {k: (cls, sorted(fired)) for _, k, cls, fired in cov}
@@ -388,7 +391,7 @@ def _hdr(kind, lim=None, blim=None):
 def _decide_proto(ctx, traces, pos_traces):
     ev, v = ctx.ev, ctx.v
     allt = [dict(t, hdr=_hdr("proto")) for t in traces + pos_traces]
-    br = _pvalidate(ctx, allt, 8)
+    br = _pvalidate(ctx, allt, 6 if ctx.thorough else 2)
     ev.tlc_counts("ZipGuardTrace protocol: validate-before-read monitor, position restored", br.distinct, br.states,
                   br.wall_s)
     nread = 0
